@@ -95,6 +95,10 @@ func tapeCheck(pj *simdjson.ParsedJson, strictNopRuns bool) (tapeStats, error) {
 				st.nops += c
 				st.nopRuns++
 				j += c
+				if strictNopRuns && j < top.end && tagOf(j) == 'N' {
+					// rebuilt tapes: Deserialize writes adjacent gaps as ONE run, so a skip lands on a live entry
+					return st, fmt.Errorf("tape[%d]: NOP run of %d entries starting at %d lands on another NOP entry, not on the next live entry", j, c, j-c)
+				}
 				continue
 			}
 			// a live entry: key or value
